@@ -39,6 +39,48 @@ func extensionOps(ch *Chain, r *hx.Rng) []*ref.Op {
 
 func checkC04(c *hx.Ctx) {
 	c.Rule("(a) base history ending in an applied deactivate, extended by 1-8 later-anchored or unpublished (time stamp before or after the deactivate) operations drawn from: valid updates/recovers/deactivates by every key that ever existed in the chain, duplicate creates, forgeries; result must stay deactivated/empty/no commitments; (b) the document handler with its default decorator must refuse update, recover and deactivate requests for that DID and record no writer Add / unpublished Put; (c) history containing a recover at (t,n), extended by valid updates anchored before (t,n) signed by the key the recover newly commits to or by older keys: result unchanged; (d) deactivates anchored through real batch files (alone, or next to a create / update of other DIDs), followed by a batch with a validly signed update of the deactivated DID: deactivated after every batch; (e) the deactivate (or superseding recover) anchored after earlier operations that reveal the same key but can never be applied (cycle-closing, self-committing, foreign signature): it still takes effect; (f) create and deactivate both still pending in the unpublished-operation store: reported as deactivated, refused at intake; after version queries on a node whose store hands out its own slice the DID is still deactivated; non-trivial = extension contains at least one validly signed operation")
+	// ---- first, before anything else has touched this process: DIDs whose document is empty while they still have an update
+	// commitment (recover / create whose delta could not be used) receive valid updates that write into the document; then
+	// other DIDs are deactivated. A deactivated DID has an empty document - nothing of another DID's state
+	{
+		lr := c.Rng("shared-empty-document")
+		p := hx.BaseProtocol()
+		pc := hx.NewClient(hx.NewVersion(p, hx.VersionOpts{ParserOpts: hx.StrictResolution()}))
+		for k := 0; k < 6; k++ {
+			a := NewUniverse(lr.Split(fmt.Sprint("a", k)), ref.SHA256, p, []string{"P-256", "Ed25519"})
+			a.BuildAlphabet(1, 2)
+			cm := func(key *ref.Key) string { return key.Commitment(ref.SHA256) }
+			var HA []*ref.Op
+			if k%2 == 0 {
+				// recover whose patches fail at application: empty document, update commitment c(U1)
+				HA = []*ref.Op{Place(a.Ops["C"], 10, 0, "a0", 0), Place(a.Ops["rF"], 20, 0, "a1", 0)}
+			} else {
+				HA = []*ref.Op{Place(a.Ops["C"], 10, 0, "a0", 0), Place(a.Ops["rI"], 20, 0, "a1", 0), Place(a.Ops["r01"], 15, 0, "a2", 0)}
+			}
+			st0, _ := ref.Resolve(HA, ref.ResolveOpts{})
+			if st0 != nil && st0.UpdateCommitment == cm(a.U[1]) {
+				w := a.MkSigned("write-into-empty", "update", a.U[1], "", cm(a.U[2]), []interface{}{patchAddKeys(pubKeyEntry("leak", a.X[0], "authentication")), patchAddServices(svcEntry("leak", "web", "https://leak.example"))}, SignedOpts{})
+				HA = append(HA, Place(w, 30, 0, "a9", 0))
+			}
+			c.Eval()
+			stA, merrA := ref.Resolve(HA, ref.ResolveOpts{})
+			rmA, errA := SUTResolve(pc, a.Suffix, HA, nil)
+			if want, got := stKey(stA, merrA), rmKey(rmA, errA); want != got {
+				c.Violation(fmt.Sprintf("C04 (first resolutions of the process) %s\n   model:   %s\n   library: %s", histString(HA), want, got), map[string]interface{}{"history": replayOps(HA)})
+				return
+			}
+			b := NewUniverse(lr.Split(fmt.Sprint("b", k)), ref.SHA256, p, []string{"P-256", "Ed25519"})
+			b.BuildAlphabet(1, 2)
+			HB := []*ref.Op{Place(b.Ops["C"], 10, 0, "b0", 0), Place(b.Ops["u01"], 15, 0, "b1", 0), Place(b.Ops["d0"], 20, 0, "b2", 0)}
+			rmB, errB := SUTResolve(pc, b.Suffix, HB, nil)
+			if errB != nil || !rmB.Deactivated || len(rmB.Doc) != 0 || rmB.UpdateCommitment != "" || rmB.RecoveryCommitment != "" {
+				c.Violation("C04 a DID deactivated after other DIDs with empty documents had been updated in the same process does not resolve as deactivated / empty / without commitments: "+rmKey(rmB, errB),
+					map[string]interface{}{"other_did_history": replayOps(HA), "history": replayOps(HB)})
+				return
+			}
+			c.Count("deactivations_after_updates_of_empty_documents")
+		}
+	}
 	nCases := c.N(500, 6000)
 	root := c.Rng("cases")
 	seeds := make([]uint64, nCases)
@@ -272,6 +314,7 @@ func checkC04(c *hx.Ctx) {
 	c.Floor("deactivate_after_inapplicable_competitor", 40)
 	c.Floor("deactivations_through_batch_files", 40)
 	c.Floor("deactivated_nodes_queried_for_earlier_versions", 100)
+	c.Floor("deactivations_after_updates_of_empty_documents", 4)
 	c.Floor("deactivated_histories", 100)
 	c.Floor("long_form_of_deactivated_did", 50)
 	c.Floor("histories_crossing_the_genesis_of_a_stricter_version", 50)
@@ -449,17 +492,24 @@ func c04AfterInapplicableCompetitor(c *hx.Ctx) {
 		u.BuildAlphabet(1, 2)
 		var labels []string
 		wantDeact := true
-		switch i % 4 {
+		switch i % 6 {
 		case 0:
 			labels = []string{"C", "r01", "r10", "d1", "u12"}
 		case 1:
 			labels = []string{"C", "r01", "r10", "r10", "d1", "u12", "r12"}
 		case 2:
 			labels = []string{"C", hx.Pick(r, []string{"r00", "rS", "rR", "rTI", "rSB"}), hx.Pick(r, []string{"r00", "rS", "dS", "dR"}), "d0", "u01", "r01"}
-		default:
+		case 3:
 			// the superseding recover in the same position; the deactivate follows later
 			labels = []string{"C", "r01", "r10", "r12", "r20", "u20"}
 			wantDeact = false
+		case 4:
+			// the DID's document is empty when the deactivate arrives (its only create carries a delta that does not match the
+			// signed hash): still a DID with a recovery commitment, still deactivated by its owner
+			labels = []string{"Cdup", "d0", "r01"}
+		default:
+			// empty after a recover whose delta cannot be used; deactivated by the key that recover committed to
+			labels = []string{"C", "rF", "d1", "u12", "r12"}
 		}
 		var ops []*ref.Op
 		t := uint64(10)
